@@ -21,7 +21,7 @@ import traffic_weaver.datasets._base as base
 
 BOUNDARIES = ["download:before", "download:within", "download:after", "verify:after", "parse:after",
               "pickle:before", "pickle:within", "pickle:after", "rename:before", "rename:after",
-              "cleanup:before", "cleanup:within", "cleanup:after", "return:before"]
+              "cleanup:before", "cleanup:within", "cleanup:after", "retry:sleep"]
 
 
 def csv_payload(rows):
@@ -127,8 +127,7 @@ class Sim:
                 f.write(data[:half])
                 f.flush()
                 sim.boundary("pickle:within")
-                f.write(data[half:])
-                f.flush()
+                f.write(data[half:])          # not flushed here: closing / flushing is the loader's business
                 sim.boundary("pickle:after")
 
         class OsProxy:
@@ -162,7 +161,7 @@ class Sim:
                 return out
 
         g["urlretrieve"] = self._urlretrieve
-        g["time"] = types.SimpleNamespace(sleep=lambda s: None)
+        g["time"] = types.SimpleNamespace(sleep=lambda s: sim.boundary("retry:sleep"))
         g["np"] = NpProxy()
         g["pickle"] = PickleProxy()
         g["os"] = OsProxy()
